@@ -23,7 +23,7 @@ type HPred struct {
 	// skey (writes only): the records are named by a SLICE of 0..2 records (key 0 = a record without
 	// a key) given as the Model of an update / the value of a delete; L = the caller's own condition;
 	// Via = Update | Updates (map) | UpdateColumn
-	Via string `json:"via,omitempty"`
+	Via string  `json:"via,omitempty"`
 	IDs []int64 `json:"ids,omitempty"`
 	A   int64   `json:"a,omitempty"`
 	B   int64   `json:"b,omitempty"`
